@@ -56,17 +56,34 @@ func (e *Exec) floatTerm(x Float) *Term {
 
 // round introduces a fresh real y standing for the float64 nearest to the exact real v
 // (monotone-exact relaxation: |y-v| <= 2^-53 |v| and floor(v) <= y <= floor(v)+1).
-func (e *Exec) round(v *Term) *Term {
+func (e *Exec) round(v *Term) *Term { return e.roundOpt(v, true) }
+
+// roundOpt: withFloor=false drops the floor/ceiling bound (still a sound over-approximation of rounding); used for
+// products with a non-integer constant where the bound only burdens the solver.
+func (e *Exec) roundOpt(v *Term, withFloor bool) *Term {
 	y := e.fresh("fl", Sort{K: SReal})
 	e.fltFresh++
 	av := e.def(Sort{K: SReal}, "(ite (>= "+v.Name+" 0.0) "+v.Name+" (- "+v.Name+"))")
 	eps := "(/ 1.0 9007199254740992.0)"
 	e.sol.Send("(assert (<= (- " + y.Name + " " + v.Name + ") (* " + eps + " " + av.Name + ")))")
 	e.sol.Send("(assert (<= (- " + v.Name + " " + y.Name + ") (* " + eps + " " + av.Name + ")))")
-	fi := e.floorReal(v)
-	fl := &Term{Name: "(to_real " + fi.Name + ")", Sort: Sort{K: SReal}}
-	e.sol.Send("(assert (<= " + fl.Name + " " + y.Name + "))")
-	e.sol.Send("(assert (<= " + y.Name + " (+ " + fl.Name + " 1.0)))")
+	if withFloor {
+		fi := e.floorReal(v)
+		fl := &Term{Name: "(to_real " + fi.Name + ")", Sort: Sort{K: SReal}}
+		e.sol.Send("(assert (<= " + fl.Name + " " + y.Name + "))")
+		e.sol.Send("(assert (<= " + y.Name + " (+ " + fl.Name + " 1.0)))")
+	}
+	// rounding is monotone: relate this rounding to the earlier ones on the path
+	for _, p := range e.roundings {
+		if e.nonlinear > 0 {
+			break
+		}
+		e.sol.Send("(assert (=> (<= " + p[0] + " " + v.Name + ") (<= " + p[1] + " " + y.Name + ")))")
+		e.sol.Send("(assert (=> (<= " + v.Name + " " + p[0] + ") (<= " + y.Name + " " + p[1] + ")))")
+	}
+	if len(e.roundings) < 12 {
+		e.roundings = append(e.roundings, [2]string{v.Name, y.Name})
+	}
 	if v.RBnd {
 		y.RLo, y.RHi, y.RBnd = math.Floor(v.RLo), math.Floor(v.RHi)+1, true
 		// tighter: relative error
@@ -267,7 +284,14 @@ func (e *Exec) floatBin(op token.Token, x, y Float) Value {
 				return Float{W: 64, S: ex}
 			}
 		}
-		res := e.round(ex)
+		withFloor := true
+		if op == token.MUL {
+			// product with a non-integer constant: no integrality structure to preserve
+			if x.S == nil && x.C != math.Trunc(x.C) || y.S == nil && y.C != math.Trunc(y.C) {
+				withFloor = false
+			}
+		}
+		res := e.roundOpt(ex, withFloor)
 		if op == token.ADD {
 			if tx.Int && tx.IntT != nil && ty.RBnd && ty.RLo >= 0 && ty.RHi < 1.0000001 {
 				res.FloorCand = tx.IntT
